@@ -34,6 +34,7 @@ type c17A struct {
 	S string
 	N *c17A // recursive: generation looks the type up again
 }
+
 // c17F: generation fails (no iterator / builder exists for a channel)
 type c17F struct {
 	X int
@@ -57,9 +58,9 @@ func goid() int {
 // cache and are released one action at a time in the order TLC chose.
 type gateSched struct {
 	mu      sync.Mutex
-	procOf  map[int]int            // goroutine id -> process
-	parked  map[int]string         // process -> point it is parked at ("" = running)
-	release map[int]chan struct{}  // process -> channel to release it
+	procOf  map[int]int           // goroutine id -> process
+	parked  map[int]string        // process -> point it is parked at ("" = running)
+	release map[int]chan struct{} // process -> channel to release it
 	tracked map[reflect.Type]bool
 	gen     map[int]bool // process is inside generation: its nested cache look-ups (recursive types) are not separate schedule steps
 	free    bool         // after the schedule: let everything run
@@ -360,7 +361,9 @@ func checkC17(c *Check) {
 				}
 			}
 		}
-		for _, nn := range c.Notes { fmt.Println("   note:", nn) }
+		for _, nn := range c.Notes {
+			fmt.Println("   note:", nn)
+		}
 		if diverged*4 > limit {
 			machineryFail("C17: %d of %d schedules could not be followed on the real code (hook points no longer match Cache.tla)", diverged, limit)
 		}
